@@ -67,7 +67,7 @@ PROPS["C16"] = dict(
 PROPS["C11"] = dict(
     level="other", claimed=True, verus=True,
     level_text="Kani on the real code with the Rescue permutation replaced by a double (the clauses hold for every permutation): hash_elements of Rp64_256 / Rp62_248 / RpJive64_256 equals the documented sponge written independently in the harness for element lists around the rate boundaries and does not depend on base-versus-extension typing; hash(bytes) == hash_elements(encode(bytes)) with the documented padding; merge == hash of the concatenation; merge_with_int's absorbed encoding is injective. Frequency-domain MDS fast path (12x12, 8x8), Verus on the bodies cut out of /repo (FFT helpers, the three frequency blocks, mds_multiply_freq, mds_multiply): for EVERY state each output lane is the canonical representative of the corresponding row of the hasher's MDS constant times the state modulo M, with no intermediate overflow; Kani: no overflow and canonical results for every state, columns of the documented circulant on unit vectors (with counterexamples).",
-    level_note='Bounded in input length (stated per obligation). Not decided: S-box / inverse S-box / round constants against a reference; that the MDS constant is an MDS matrix; Blake3 / SHA3 wrappers (external crates).',
+    level_note='Bounded in input length (stated per obligation). S-box / inverse S-box chains and constant additions are compared with an independent reference only by the bounded stand-in rescue_native (Rp64_256, RpJive64_256; Rp62_248 does not expose its permutation); not decided: that the MDS constant is an MDS matrix; Blake3 / SHA3 wrappers (external crates).',
     explanation=MIX)
 
 PROPS["C05"] = dict(
